@@ -101,6 +101,13 @@ def run (d : DSt) (args : List Str) (impl : String) : DSt × String × String ×
       let cnt (i : Nat) : Nat := ((rs.getD i []).filter isResponse).length
       let out := s!"queued r1={cnt 0} r2={cnt 1} order={String.join (List.replicate s'.cbCalls "q,")}{String.join (List.replicate s'.nilCalls "nil,")}"
       (d, out, out, "queued")
+    else if c = str "burst" then
+      -- `run` on three requests waiting in the group's queue: each is answered once, in arrival order
+      -- (the group is FIFO, C02), by a callback that was handed that request
+      let (s', rs) := QueryEvent.run 0 {} [.request .ok [.model true], .request .ok [.model true], .request .ok [.model true]]
+      let cnt (i : Nat) : Nat := ((rs.getD i []).filter isResponse).length
+      let out := s!"burst replies={cnt 0},{cnt 1},{cnt 2}, seen=a=1,a=2,a=3 own-answer=T"
+      (d, if s'.cbCalls = 3 then out else "model-error", out, "burst")
     else if c = str "shutdownlive" then
       -- `released`: once the duration has passed nothing of a query event is left, whether or not
       -- the service is still running (the nil call itself needs a running service)
